@@ -245,7 +245,7 @@ Lemma fcore_move2 s s' t th' :
   ctr (fd s') = ctr (fd s) -> nagents (fd s') = nagents (fd s) -> toack (fd s') = toack (fd s) ->
   vctr s' = vctr s ->
   (forall n, fwtg s' n = fwtg s n \/ nown n = t) ->
-  memb th' = memb (fth s t) -> eack th' = eack (fth s t) -> isoff2 th' = isoff2 (fth s t) ->
+  memb th' = memb (fth s t) -> (memb th' = true -> eack th' = eack (fth s t)) -> isoff2 th' = isoff2 (fth s t) ->
   special th' = special (fth s t) -> restarter th' = restarter (fth s t) ->
   (forall x, holds (fth s' x) = true <-> fmx s' = Some x) ->
   local_ok s' nown t th' ->
@@ -255,10 +255,13 @@ Proof.
   intros HC ND Ht Hth Hc Hn Hta Hv Hw A1 A2 A6 A3 A5 Hh Hl H4.
   assert (Hoth : forall x, x <> t -> fth s' x = fth s x) by (intros x Hx; rewrite Hth; now apply upd_other).
   assert (Hme : fth s' t = th') by (rewrite Hth; apply upd_same).
-  assert (Hneeds : forall c, needs c th' = needs c (fth s t)) by (intros c; now rewrite !needs_eq, A1, A2, A6).
+  assert (Hneeds : forall c, needs c th' = needs c (fth s t)).
+  { intros c. rewrite !needs_eq, A6. destruct (memb th') eqn:M.
+    - now rewrite <- A1, (A2 eq_refl).
+    - now rewrite <- A1. }
   apply (fcore_upd U nown s s' t th' HC ND Ht Hth Hv).
   - rewrite Hc. apply N.le_refl.
-  - rewrite A1, A2. apply (f_j1 _ _ _ HC t).
+  - intros M. rewrite (A2 M). apply (f_j1 _ _ _ HC t). now rewrite <- A1.
   - rewrite Hneeds, Hta. reflexivity.
   - rewrite A1, Hn. reflexivity.
   - exact Hh.
@@ -320,7 +323,7 @@ Lemma fcore_move s s' t th' :
 Proof.
   intros HC ND Ht Hth Hc Hn Hta Hm Hw Hat Hl.
   unfold attrs in Hat. inversion Hat as [[A1 A2 A3 A4 A5 A6 A7 A8]]. clear Hat.
-  apply (fcore_move2 s s' t th' HC ND Ht Hth Hc Hn Hta); try assumption.
+  apply (fcore_move2 s s' t th' HC ND Ht Hth Hc Hn Hta); try assumption; try (intros _; assumption).
   - unfold vctr. rewrite Hm, Hc, Hth. destruct (fmx s) as [h|]; [|reflexivity].
     destruct (Nat.eq_dec h t) as [->|Hx]; [now rewrite upd_same, A3|now rewrite upd_other].
   - apply (hold_same s s' t th' HC Hth Hm A4).
@@ -342,6 +345,133 @@ Lemma loc_others_holder s s' t x :
 Proof.
   intros HC Hm Hx Hc Hw. pose proof (f_loc _ _ _ HC x) as [L0 L]. pose proof (other_not_holder s t x HC Hm Hx) as Hh.
   split; [assumption|]. unfold holds in Hh. destruct (tpc (fth s x)); try discriminate; rewrite ?Hc, ?Hw; assumption.
+Qed.
+
+Lemma memb_in_U s x : FCore U nown s -> memb (fth s x) = true -> In x U.
+Proof.
+  intros HC Hx. destruct (in_dec Nat.eq_dec x U) as [i|n]; [assumption|].
+  rewrite (f_univ _ _ _ HC x n) in Hx. discriminate.
+Qed.
+
+Lemma nagents_room s t : FCore U nown s -> NoDup U -> In t U -> memb (fth s t) = false ->
+  nagents (fd s) + 1 <= N.of_nat (length U).
+Proof.
+  intros HC ND Ht Hm. rewrite (f_j3 _ _ _ HC).
+  set (q := fun x => if Nat.eqb x t then true else memb (fth s x)).
+  assert (E : cnt (fun x => memb (fth s x)) U + b2n (q t) = cnt q U + b2n (memb (fth s t))).
+  { apply cnt_change; [assumption|assumption|]. intros y Hy. unfold q. apply Nat.eqb_neq in Hy. now rewrite Hy. }
+  assert (Q : q t = true) by (unfold q; now rewrite Nat.eqb_refl).
+  rewrite Q, Hm in E. cbn [b2n] in E. pose proof (cnt_le_length q U) as L. clearbody q. clear - E L. lia.
+Qed.
+
+Lemma nagents_pos s t : FCore U nown s -> memb (fth s t) = true -> 1 <= nagents (fd s).
+Proof.
+  intros HC Hm. rewrite (f_j3 _ _ _ HC).
+  pose proof (cnt_pos (fun x => memb (fth s x)) U t (memb_in_U s t HC Hm) Hm) as P. clear - P. lia.
+Qed.
+
+Lemma no_members s : FCore U nown s -> nagents (fd s) = 0 -> forall x, memb (fth s x) = false.
+Proof.
+  intros HC H0 x. destruct (memb (fth s x)) eqn:E; [|reflexivity].
+  pose proof (nagents_pos s x HC E) as P. clear - P H0. lia.
+Qed.
+
+Lemma needs_in_U s c x : FCore U nown s -> needs c (fth s x) = true -> In x U.
+Proof.
+  intros HC Hx. destruct (in_dec Nat.eq_dec x U) as [i|n]; [assumption|].
+  rewrite (f_univ _ _ _ HC x n) in Hx. discriminate.
+Qed.
+
+Lemma toack_pos s t : FCore U nown s -> needs (vctr s) (fth s t) = true -> 1 <= toack (fd s).
+Proof.
+  intros HC Hn. rewrite (f_j2 _ _ _ HC).
+  pose proof (cnt_pos (fun x => needs (vctr s) (fth s x)) U t (needs_in_U s _ t HC Hn) Hn) as P. clear - P. lia.
+Qed.
+
+Lemma toack_one_only s t : FCore U nown s -> NoDup U -> toack (fd s) = 1 -> needs (vctr s) (fth s t) = true ->
+  forall x, x <> t -> needs (vctr s) (fth s x) = false.
+Proof.
+  intros HC ND H1 Hn x Hx. destruct (needs (vctr s) (fth s x)) eqn:E; [|reflexivity].
+  pose proof (cnt_two (fun y => needs (vctr s) (fth s y)) U x t ND (needs_in_U s _ x HC E) (needs_in_U s _ t HC Hn) Hx E Hn) as P.
+  rewrite <- (f_j2 _ _ _ HC) in P. clear - P H1. lia.
+Qed.
+
+Lemma toack_zero_none s : FCore U nown s -> toack (fd s) = 0 -> forall x, needs (vctr s) (fth s x) = false.
+Proof.
+  intros HC H0 x. destruct (needs (vctr s) (fth s x)) eqn:E; [|reflexivity].
+  pose proof (toack_pos s x HC E) as P. clear - P H0. lia.
+Qed.
+
+(* a restarter is a member or holds the mutex *)
+Lemma restarter_memb_or_holds s x : FCore U nown s -> restarter (fth s x) = true ->
+  memb (fth s x) = true \/ holds (fth s x) = true.
+Proof.
+  intros HC R. unfold restarter in R. apply orb_true_iff in R. destruct R as [D|R].
+  - left. apply (f_j4 _ _ _ HC x D).
+  - pose proof (f_loc _ _ _ HC x) as [_ L]. unfold memb, holds.
+    destruct (tpc (fth s x)); try discriminate; try (right; reflexivity); left;
+      destruct L as (La & _); destruct (acked (tag (fth s x)) =? 0) eqn:Z; try reflexivity; apply N.eqb_eq in Z; contradiction.
+Qed.
+
+(* nobody is a member and t holds the mutex (without being at the fetch_sub of offline): nothing to ack *)
+Lemma nobody_needs s t : FCore U nown s -> nagents (fd s) = 0 -> fmx s = Some t -> isoff2 (fth s t) = false ->
+  toack (fd s) = 0 /\ forall x, x <> t -> restarter (fth s x) = false.
+Proof.
+  intros HC H0 Hm I2.
+  assert (Hnn : forall x, needs (vctr s) (fth s x) = false).
+  { intros x. rewrite needs_eq, (no_members s HC H0 x). cbn. rewrite orb_false_r.
+    destruct (Nat.eq_dec x t) as [->|Hx]; [assumption|].
+    pose proof (other_not_holder s t x HC Hm Hx) as Hh. unfold isoff2, holds in *. destruct (tpc (fth s x)); try reflexivity; discriminate. }
+  split.
+  - rewrite (f_j2 _ _ _ HC). clear - Hnn. induction U as [|a l IH]; cbn; [reflexivity|]. now rewrite Hnn, IH.
+  - intros x Hx. destruct (restarter (fth s x)) eqn:R; [|reflexivity].
+    destruct (restarter_memb_or_holds s x HC R) as [M|Hh].
+    + rewrite (no_members s HC H0 x) in M. discriminate.
+    + rewrite (other_not_holder s t x HC Hm Hx) in Hh. discriminate.
+Qed.
+
+(* thread t (not special before or after) changes counters other than the period; mutex unchanged *)
+Lemma fcore_step_upd s s' t th' :
+  FCore U nown s -> NoDup U -> In t U ->
+  fth s' = upd (fth s) t th' ->
+  fmx s' = fmx s -> holds th' = holds (fth s t) ->
+  special (fth s t) = false -> special th' = false ->
+  vctr s = ctr (fd s) ->
+  ctr (fd s') = ctr (fd s) ->
+  (memb th' = true -> eack th' = ctr (fd s) \/ eack th' + 1 = ctr (fd s)) ->
+  toack (fd s') + b2n (needs (ctr (fd s)) (fth s t)) = toack (fd s) + b2n (needs (ctr (fd s)) th') ->
+  nagents (fd s') + b2n (memb (fth s t)) = nagents (fd s) + b2n (memb th') ->
+  local_ok s' nown t th' ->
+  (forall x, x <> t -> local_ok s' nown x (fth s x)) ->
+  (deferred (tag th') = true -> memb th' = true /\ acked (tag th') = ctr (fd s)) ->
+  (restarter th' = true -> restarter (fth s t) = true \/ forall x, x <> t -> restarter (fth s x) = false) ->
+  (restarter th' = true -> toack (fd s') = 0) ->
+  (toack (fd s) = 0 -> toack (fd s') = 0) ->
+  FCore U nown s'.
+Proof.
+  intros HC ND Ht Hth Hm Hh Sp Sp' Hv Hc H1 H2 H3 Hl Hlo H4 Hr1 Hr2 Hr2o.
+  assert (Hoth : forall x, x <> t -> fth s' x = fth s x) by (intros x Hx; rewrite Hth; now apply upd_other).
+  assert (Hme : fth s' t = th') by (rewrite Hth; apply upd_same).
+  assert (Hv' : vctr s' = vctr s).
+  { rewrite Hv. unfold vctr in *. rewrite Hm, Hc. destruct (fmx s) as [h|]; [|reflexivity].
+    destruct (Nat.eq_dec h t) as [->|Hx]; [now rewrite Hme, Sp'|]. rewrite (Hoth h Hx). exact Hv. }
+  apply (fcore_upd U nown s s' t th' HC ND Ht Hth Hv').
+  - rewrite Hc. apply N.le_refl.
+  - now rewrite Hv.
+  - now rewrite Hv.
+  - exact H3.
+  - apply (hold_same s s' t th' HC Hth Hm Hh).
+  - intros x. destruct (Nat.eq_dec x t) as [->|Hx]; [now rewrite Hme|]. rewrite (Hoth x Hx). now apply Hlo.
+  - intros x Hx. rewrite Hc. destruct (Nat.eq_dec x t) as [->|Hn']; [rewrite Hme in *; now apply H4|].
+    rewrite (Hoth x Hn') in *. apply (f_j4 _ _ _ HC x Hx).
+  - intros x y Hx Hy. destruct (Nat.eq_dec x t) as [->|Hnx]; destruct (Nat.eq_dec y t) as [->|Hny]; try reflexivity.
+    + rewrite Hme in Hx. rewrite (Hoth y Hny) in Hy. destruct (Hr1 Hx) as [R|R]; [apply (f_r1 _ _ _ HC t y R Hy)|].
+      rewrite (R y Hny) in Hy. discriminate.
+    + rewrite Hme in Hy. rewrite (Hoth x Hnx) in Hx. destruct (Hr1 Hy) as [R|R]; [apply (f_r1 _ _ _ HC x t Hx R)|].
+      rewrite (R x Hnx) in Hx. discriminate.
+    + rewrite (Hoth x Hnx) in Hx. rewrite (Hoth y Hny) in Hy. apply (f_r1 _ _ _ HC x y Hx Hy).
+  - intros x Hx Hs. destruct (Nat.eq_dec x t) as [->|Hn']; [rewrite Hme in Hx; now apply Hr2|].
+    rewrite (Hoth x Hn') in *. apply Hr2o. apply (f_r2 _ _ _ HC x Hx Hs).
 Qed.
 
 (* the holder t resets agents_to_ack: from now on the virtual period is the next one *)
@@ -422,7 +552,7 @@ Proof.
   assert (Honly : forall x, x <> t -> restarter (fth s x) = false).
   { intros x Hx. destruct (restarter (fth s x)) eqn:R; [|reflexivity]. elim Hx. apply (f_r1 _ _ _ HC x t R Rs). }
   apply (fcore_upd U nown s s' t th' HC ND Ht Hth Hv').
-  - rewrite Hc. lia.
+  - rewrite Hc. clear. lia.
   - rewrite A1, A2. apply (f_j1 _ _ _ HC t).
   - rewrite !needs_eq, A1, A2, A6, A6', Hta. reflexivity.
   - rewrite A1, Hn. reflexivity.
@@ -435,8 +565,8 @@ Proof.
     + (* PQ2 c: impossible while t is special *)
       exfalso. destruct L as (La & Lb & Lc & Ld).
       assert (M : memb (fth s x) = true) by (unfold memb; rewrite Ex; destruct (acked (tag (fth s x)) =? 0) eqn:Z; [apply N.eqb_eq in Z; contradiction|reflexivity]).
-      destruct (f_j1 _ _ _ HC x M) as [E|E]; unfold eack in E; rewrite Ex, Hv in E; lia.
-    + rewrite Hc. lia.
+      destruct (f_j1 _ _ _ HC x M) as [E|E]; unfold eack in E; rewrite Ex, Hv in E; clear - E Lc Ld; lia.
+    + rewrite Hc. clear - L. lia.
   - intros x Hx. destruct (Nat.eq_dec x t) as [->|Hn']; [rewrite Hme in Hx; congruence|].
     rewrite (Hoth x Hn') in Hx. pose proof (Honly x Hn') as R. unfold restarter in R. rewrite Hx in R. discriminate.
   - intros x y Hx Hy. destruct (Nat.eq_dec x t) as [->|Hn']; [rewrite Hme in Hx; congruence|].
@@ -514,16 +644,15 @@ Ltac fstep_inv H Hstop :=
   inversion H; subst; clear H;
   cbn [tag tpc tscript tret acked deferred pending] in *.
 
+Ltac split_ret := unfold ret_th; try match goal with |- context [tret ?th] => destruct (tret th) eqn:? end.
+
 Ltac attrs_tac Epc :=
-  unfold attrs, memb, eack, special, holds, restarter, isoff2, ret_th; cbn; rewrite ?Epc; cbn;
-  repeat match goal with |- context [match ?x with _ => _ end] => destruct x eqn:?; cbn end;
-  reflexivity.
+  unfold attrs, memb, eack, special, holds, restarter, isoff2; split_ret; cbn; rewrite ?Epc; cbn; reflexivity.
 
 Ltac local_tac U nown HC t Epc :=
   let L := fresh "L" in
   pose proof (f_loc U nown _ HC t) as L; unfold local_ok in L |- *; rewrite Epc in L; cbn in L |- *;
-  unfold ret_th; cbn;
-  repeat match goal with |- context [match ?x with _ => _ end] => destruct x eqn:?; cbn end;
+  split_ret; cbn;
   n2p; intuition (try lia; try congruence).
 
 Ltac move_tac U nown HC ND Ht t Epc :=
